@@ -174,6 +174,9 @@ func (p *RevProfile) genFault(t *Tape, sc *RevScenario, kind string) Fault {
 		}
 	case FRedirect:
 		f.Param = []int{302, 301, 303, 307, 308}[t.Weighted(40, 15, 15, 15, 15)]
+		if t.Bool(12) {
+			f.Param += 1000 // the target redirects again, and again
+		}
 	case FConnErr:
 		f.Param = t.Weighted(40, 12, 10, 12, 8, 10, 8) // plain / typed DNS not-found / temporary DNS / refused / unexpected EOF / reset / EOF
 	case FTruncate:
@@ -285,6 +288,7 @@ func (p *RevProfile) genCRLPlan(t *Tape, sc *RevScenario, truth int, deviate boo
 	if isDelta {
 		c.NumOff = 1 + int64(t.Choose(3))
 		c.IndOff = -int64(t.Choose(3))
+		c.EarlyThis = t.Bool(15)
 		c.Entries = genEntries(t, p.CRLRich, 0)
 		if !p.CRLRich && truth == 1 && t.Bool(50) {
 			c.Entries = append(c.Entries, EntryPlan{Match: true, Reason: 1, RevIdx: 2})
@@ -581,6 +585,11 @@ func (p *RevProfile) genWorld(t *Tape, sc *RevScenario, id int) *World {
 		if w.Reps == 5 {
 			w.Reps = p.MaxCallers / 2
 		}
+	}
+	if !w.HasST && t.Bool(50) {
+		// no signing time supplied: invalidity dates that lie in the future of
+		// the validation instant (they do not exempt anything then)
+		w.InvBase = Epoch.Add(2 * time.Hour)
 	}
 	if p.RepsPct > 0 && w.Entry == EValidateContext && t.Bool(p.RepsPct) {
 		w.Reps = 2 + t.Choose(2)
